@@ -262,9 +262,12 @@ func (c *Clients) clientTLS(cc *plan.ClientConn, serverName string, alpn ...stri
 	case "good":
 		cert, _, _ := c.PKI.Leaf("good", true, "client.test")
 		cfg.Certificates = []tls.Certificate{cert}
-	case "otherca":
-		cert, _, _ := c.PKI.Leaf("otherca", true, "client.test")
-		cfg.Certificates = []tls.Certificate{cert}
+	case "otherca", "expired", "selfsigned", "notyet":
+		// presented whatever the server's list of acceptable CAs says (a
+		// well-behaved client would send nothing; one that wants in does not
+		// ask): whether the chain is verified is the server's business
+		cert, _, _ := c.PKI.Leaf(cc.ClientCert, true, "client.test")
+		cfg.GetClientCertificate = func(*tls.CertificateRequestInfo) (*tls.Certificate, error) { return &cert, nil }
 	}
 	return cfg
 }
